@@ -19,7 +19,9 @@ EXTENDS Grants, Json, OpsLib
 CONSTANTS Family,     \* which alphabet: "C01", "C02", ...
           Cfgs,       \* set of configurations (records) explored from Init
           MaxCodes, MaxAT, MaxRT, MaxNow, MaxDev, MaxPar, Depth,
-          Emit        \* TRUE: print every history of length Depth (generation runs)
+          Emit,       \* TRUE: print histories (generation runs)
+          EmitAll     \* TRUE: print the history of EVERY state TLC finds new (with the VIEW: one shortest
+                      \* witness history per distinct abstract state); FALSE: only histories of length Depth
 
 VARIABLES st, hist, stepok
 
@@ -32,6 +34,7 @@ BaseCfg == [at |-> "hmac", rscopes |-> <<"offline">>, pkce_all |-> FALSE, pkce_p
 CfgWith(a, rs, lrt) == [BaseCfg EXCEPT !.at = a, !.rscopes = rs, !.l_rt = lrt]
 CfgsOne == {BaseCfg}
 CfgsRS == {CfgWith("hmac", rs, 6) : rs \in {<<>>, <<"offline">>}}
+CfgsRSB == {CfgWith("hmac", rs, 6) : rs \in {<<>>, <<"offline">>, <<"b">>}}
 CfgsStrategies == {CfgWith(a, rs, 6) : a \in {"hmac", "jwt"}, rs \in {<<>>, <<"offline">>}}
 CfgsRefresh == {CfgWith(a, rs, lrt) : a \in {"hmac", "jwt"}, rs \in {<<>>, <<"offline">>, <<"b">>}, lrt \in {6, -1}}
 CfgsPkce == {[BaseCfg EXCEPT !.pkce_all = pa, !.pkce_pub = pp, !.pkce_plain = pl] :
@@ -58,7 +61,8 @@ TickOps == IF st.now < MaxNow THEN {Tick} ELSE {}
 OpsC01 ==   \* code single use; replay after refreshes; hybrid codes; other grants interleaved
   (IF CanAuthz THEN {Authz(c, rt, Full, Full, <<>>, "sent", "none") : c \in {"A", "B"}, rt \in {"code", "code_token", "code_idt_token"}} ELSE {})
   \cup (IF CanMint THEN {Redeem(Owner(k), "ok", k, "same", "none", <<>>, <<>>) : k \in Codes} ELSE {})
-  \cup {Redeem(Owner(k), "ok", k, "same", "none", <<>>, <<>>) : k \in {x \in Codes : ~st.S.code[x].active}}
+  \cup UNION {{Redeem(c, a, k, rd, "none", <<>>, <<>>) : c \in {Owner(k), Other(Owner(k))}, a \in {"ok", "bad"}, rd \in {"same", "absent"}} :
+                  k \in {x \in Codes : ~st.S.code[x].active}}                          \* replay by anybody, any way
   \cup (IF CanMint THEN {Refresh(st.S.rt[j].client, "ok", j, <<>>, <<>>) : j \in RTs} ELSE {})
   \cup {Refresh(st.S.rt[j].client, "ok", j, <<>>, <<>>) : j \in {x \in RTs : ~RTActive(st, x)}}
   \cup {Revoke(st.S.rt[j].client, "ok", "rt", j, "none") : j \in RTs}
@@ -102,6 +106,16 @@ OpsC05 ==   \* refresh never widens, never crosses clients; issuance rule
               xs \in {<<>>, <<"b", "openid", "offline">>}, xa \in {<<>>, <<AudB>>}} ELSE {})
   \cup {ClientChange(c, f[1], f[2]) : c \in {"A", "P"},
           f \in {<<"rm_scope", "b">>, <<"rm_scope", "offline">>, <<"rm_aud", AudA>>, <<"rm_grant", "refresh_token">>, <<"restore", "">>}}
+
+OpsC05b ==  \* the refresh-token ISSUANCE rule in every flow that can issue one: refresh scopes x client grant types
+  (IF CanAuthz THEN {Authz(c, rt, sc, sc, <<>>, "sent", "none") : c \in {"A", "P"}, rt \in {"code", "code_token"}, sc \in {<<"offline", "a">>, <<"a">>}} ELSE {})
+  \cup (IF CanMint THEN {Redeem(Owner(k), "ok", k, "same", "none", <<>>, <<>>) : k \in {x \in Codes : st.S.code[x].active}} ELSE {})
+  \cup (IF CanMint THEN {Password("A", "ok", "ok", sc, <<>>) : sc \in {<<"a">>, <<"offline", "a">>}} ELSE {})
+  \cup (IF Count(st.S.dev) < MaxDev THEN {DevStart("P", "ok", sc, sc, <<>>) : sc \in {<<"offline", "a">>, <<"a">>}} ELSE {})
+  \cup {DevDecide(d, "accept") : d \in {x \in Devs : st.S.dev[x].ustate = "unused"}}
+  \cup (IF CanMint THEN {DevPoll("P", "ok", d) : d \in {x \in Devs : st.S.dev[x].ustate = "accepted" /\ st.S.dev[x].present}} ELSE {})
+  \cup (IF CanMint THEN {Refresh(st.S.rt[j].client, "ok", j, <<>>, <<>>) : j \in RTs} ELSE {})
+  \cup {ClientChange(c, f[1], f[2]) : c \in {"A", "P"}, f \in {<<"rm_grant", "refresh_token">>, <<"restore", "">>}}
 
 OpsC07 ==   \* expiry of every stateful credential kind
   (IF CanAuthz THEN {Authz("A", rt, Full, Full, <<>>, "sent", "none") : rt \in {"code", "code_token", "token"}} ELSE {})
@@ -163,7 +177,7 @@ OpsC17 ==   \* pushed authorization requests
 
 Ops ==
   CASE Family = "C01" -> OpsC01 [] Family = "C02" -> OpsC02 [] Family = "C03" -> OpsC03
-    [] Family = "C04" -> OpsC04 [] Family = "C05" -> OpsC05 [] Family = "C07" -> OpsC07
+    [] Family = "C04" -> OpsC04 [] Family = "C05" -> OpsC05 [] Family = "C05b" -> OpsC05b [] Family = "C07" -> OpsC07
     [] Family = "C08" -> OpsC08 [] Family = "C09" -> OpsC09 [] Family = "C16" -> OpsC16
     [] Family = "C17" -> OpsC17
     [] OTHER -> OpsC01 \cup OpsC04 \cup OpsC08 \cup OpsC16 \cup OpsC17
@@ -194,5 +208,5 @@ TypeOK ==
 View == <<st, stepok>>
 
 (* generation: print every complete history *)
-EmitHist == (Emit /\ Len(hist) = Depth) => PrintT(<<"HIST", ToJson([cfg |-> st.cfg, ops |-> hist])>>)
+EmitHist == (Emit /\ (IF EmitAll THEN Len(hist) > 0 ELSE Len(hist) = Depth)) => PrintT(<<"HIST", ToJson([cfg |-> st.cfg, ops |-> hist])>>)
 =============================================================================
